@@ -98,6 +98,9 @@ struct RenderNode {
 }
 //@end
 
+// trusted (A3): #[derive(Clone)] on the render tree is a structural copy (the derive itself is dropped, R15)
+impl Clone for RenderNode { #[verifier::external_body] fn clone(&self) -> (r: Self) ensures r == *self { unimplemented!() } }
+
 // ---- abstract view (ours): the children sequence a marker is inserted into ----
 spec fn kids(i: RenderNodeInfo) -> Option<Seq<RenderNode>> {
     match i {
